@@ -32,7 +32,7 @@ ASSUMPTIONS = ["per-target expectation = the library's own root merge of indepen
 REACH = [("yamlpath/merger/merger.py", "_insert_dict,_insert_list,_insert_set,_insert_scalar,_get_merge_target_nodes,merge_with,_replace_merge_target", "Merger._insert_* / _get_merge_target_nodes / merge_with"),
          ("yamlpath/merger/mergerconfig.py", "get_insertion_point", "MergerConfig.get_insertion_point")]
 SIZES = {"quick": 30000, "thorough": 800000}
-REQUIRED_COUNTERS = ["cli_uncreatable_cases", "traversal_mergeat_cases", "existing_single", "existing_multiple", "created", "uncreatable"]
+REQUIRED_COUNTERS = ["retyped_equal_rhs_cases", "cli_uncreatable_cases", "traversal_mergeat_cases", "existing_single", "existing_multiple", "created", "uncreatable"]
 SAMPLE = [("deep", "all", "all", "unique"), ("deep", "unique", "deep", "unique"), ("right", "right", "right", "right"),
           ("left", "left", "left", "left"), ("deep", "right", "unique", "left"), ("right", "all", "deep", "unique")]
 
@@ -171,6 +171,43 @@ def run_case(ctx, ltext, rtext, segs, kind, combo):
         ctx.violation("differs/%s/%s" % (kind, where), {"case": case, "summary": "at %r ; result %r" % (df[:3], yp.dump(m.data)[:250])})
 
 
+def retyped_flow(n):
+    """Flow YAML of a copy of n whose scalars are Python-equal but of another type (true <-> 1, 3 <-> 3.0), or None."""
+    changed = [False]
+
+    def w(x):
+        if isinstance(x, dict):
+            if not all(isinstance(k, str) and k.isalnum() for k in x):
+                raise ValueError
+            return "{%s}" % ", ".join("%s: %s" % (k, w(v)) for k, v in x.items())
+        if yp.is_set(x):
+            raise ValueError
+        if isinstance(x, list):
+            return "[%s]" % ", ".join(w(e) for e in x)
+        if x is None:
+            return "null"
+        if isinstance(x, bool) or type(x).__name__ == "ScalarBoolean":
+            changed[0] = True
+            return "1" if x else "0"
+        if isinstance(x, int):
+            changed[0] = True
+            return "%d.0" % int(x)
+        if isinstance(x, float):
+            if float(x).is_integer():
+                changed[0] = True
+                return "%d" % int(x)
+            return repr(float(x))
+        sx = str(x)
+        if not sx.replace(" ", "").isalnum():
+            raise ValueError
+        return '"%s"' % sx
+    try:
+        t = w(n)
+    except ValueError:
+        return None
+    return t if changed[0] else None
+
+
 def dotted_keys(rng, t, depth=0):
     """Some keys get a path separator inside (logging.level, a/b): reachable through wildcards and searches only,
     and any code that re-resolves a reported path must have escaped them."""
@@ -250,6 +287,14 @@ def run_shard(ctx):
             segs, node = rng.choice(sp)
             if node is None:
                 continue
+            if rng.random() < 0.15 and yp.is_container(node):
+                # the right-hand document is the target itself with Python-equal scalars of another type (true -> 1,
+                # 3 -> 3.0): under a RIGHT policy the target must become it all the same
+                rt2 = retyped_flow(node)
+                if rt2 is not None:
+                    ctx.count("retyped_equal_rhs_cases")
+                    run_case(ctx, ltext, rt2, segs, "single", ("right", "right", "right", "right"))
+                    continue
             run_case(ctx, ltext, rtext, segs, "single", combo)
         elif x < 0.65:
             base = rng.choice([[]] + [s for s, nd in sp if isinstance(nd, (dict, list)) and not yp.is_set(nd)][:6])
